@@ -56,10 +56,11 @@ pub fn recv_step<S: Shape, const CAP: usize, const R: usize, const T: usize, con
     }
 
     // ---- the step ----
-    let mut got = 0u8; // 1 message, 2 closed, 3 read error, 4 parse error
+    let mut got = 0u8; // 1 message, 2 closed, 3 read error, 4 parse error, 5 message retained
     let mut msg = Canon::new();
     let mut msg_size = 0usize;
     let mut oom = false;
+    let retain: bool = kani::any();
     match rx.recv() {
         Ok(guard) => {
             got = 1;
@@ -69,7 +70,12 @@ pub fn recv_step<S: Shape, const CAP: usize, const R: usize, const T: usize, con
             msg = o.c;
             msg_size = m.size();
             assert!(o.lencap, "delivered message: len <= capacity");
-            // guard dropped here: consumes size() bytes
+            if retain {
+                // `retain` leaves the message in the receiver: nothing is consumed
+                got = 5;
+                guard.retain();
+            }
+            // otherwise the guard is dropped here: consumes size() bytes
         }
         Err(RecvError::Closed) => got = 2,
         Err(RecvError::Read(e)) => {
@@ -127,6 +133,7 @@ pub fn post_recv<S: Shape, const CAP: usize, const R: usize, const T: usize, con
     assert!(!after_fail, "no read is issued after a failed read within one recv");
     assert!(calls <= R + 2, "bounded number of reads");
     let consumed = if got == 1 { msg_size } else { 0 };
+    let got = if got == 5 { 1 } else { got }; // a retained message is judged like a delivered one, with nothing consumed
     // bytes buffered now ++ unread source bytes == stream minus the consumed message
     let occ1 = e1 - s1;
     assert!(occ1 + consumed == occ + pos, "nothing lost or duplicated: buffered + consumed == previously buffered + read");
@@ -148,6 +155,7 @@ pub fn post_recv<S: Shape, const CAP: usize, const R: usize, const T: usize, con
             assert!(pre.ok(), "a delivered message is a valid value of the bytes received so far");
             assert!(msg.eq(&pre.c) && msg_size == pre.ext, "delivered content and size are the reference decoding");
             assert!(msg_size <= seen, "dropping the guard consumes no more than has been received");
+            assert!(consumed == msg_size || consumed == 0, "a message is consumed whole, or retained");
             if whole.ok() {
                 assert!(msg.eq(&whole.c) && msg_size == whole.ext, "the delivered message is the first message of the stream");
             }
@@ -178,6 +186,7 @@ pub fn post_recv<S: Shape, const CAP: usize, const R: usize, const T: usize, con
     }
     kani::cover!(got == 1 && calls >= 2, "w:message-after-two-reads");
     kani::cover!(got == 1 && s1 > 0, "w:message-leaves-remainder");
+    kani::cover!(got == 1 && consumed == 0 && msg_size > 0, "w:message-retained");
     kani::cover!(got == 2, "w:closed");
     kani::cover!(got == 3 && oom, "o:out-of-memory");
     kani::cover!(got == 3 && !oom || !FAULTS, "w:read-error-or-no-faults");
@@ -253,6 +262,104 @@ pub fn send_step<S: Shape, const CAP: usize, const FAULTS: bool>() {
     kani::cover!(!ok && n == 0 || !FAULTS, "w:failure-at-start-or-no-faults");
 }
 
+/// `io(pipe, max_msg_len)` constructors: buffer capacity 2 * max(max_msg_len, MIN_SIZE), aligned
+/// to the message type, empty window - for both ends, blocking and async.
+pub fn ctor<S: Shape>() {
+    let k: usize = kani::any();
+    kani::assume(k <= 12);
+    let want = 2 * if k > S::MIN { k } else { S::MIN };
+    let src = Source::<1> { data: [0], len: 0, pos: 0, calls: 0, faults: false, failed: false, last_after_fail: false };
+    let mut rx = Receiver::<S::T, _>::io(src, k);
+    {
+        let b = rx.verif_buffer_mut();
+        assert!(b.verif_window() == (0, 0, want), "receiver buffer: empty window, capacity 2 * max(max_msg_len, MIN_SIZE)");
+        assert!(b.verif_data_mut().as_ptr() as usize % S::A == 0, "receiver buffer is aligned to the message type");
+        assert!(!b.verif_poisoned(), "fresh receiver is not poisoned");
+    }
+    let sink = Sink::<1> { data: [0], len: 0, calls: 0, faults: false, failed: false, last_after_fail: false, flushed: 0, flush_calls: 0 };
+    let mut tx = Sender::<S::T, _>::io(sink, k);
+    {
+        let b = tx.verif_buffer_mut();
+        assert!(b.verif_window() == (0, 0, want), "sender buffer: empty window, capacity 2 * max(max_msg_len, MIN_SIZE)");
+        assert!(b.verif_data_mut().as_ptr() as usize % S::A == 0, "sender buffer is aligned to the message type");
+    }
+    let asrc = ASource::<1> { inner: Source { data: [0], len: 0, pos: 0, calls: 0, faults: false, failed: false, last_after_fail: false }, pending_budget: 0, pendings: 0, pending_this_poll: false };
+    let mut arx = flatty_io::AsyncReceiver::<S::T, _>::io(asrc, k);
+    {
+        let b = arx.verif_buffer_mut();
+        assert!(b.verif_window() == (0, 0, want), "async receiver buffer capacity");
+        assert!(b.verif_data_mut().as_ptr() as usize % S::A == 0, "async receiver buffer alignment");
+    }
+    let asink = ASink::<1> { inner: Sink { data: [0], len: 0, calls: 0, faults: false, failed: false, last_after_fail: false, flushed: 0, flush_calls: 0 }, pending_budget: 0, pendings: 0, pending_this_poll: false, closed: false };
+    let mut atx = flatty_io::AsyncSender::<S::T, _>::io(asink, k);
+    {
+        let b = atx.verif_buffer_mut();
+        assert!(b.verif_window() == (0, 0, want), "async sender buffer capacity");
+        assert!(b.verif_data_mut().as_ptr() as usize % S::A == 0, "async sender buffer alignment");
+    }
+    kani::cover!(k > S::MIN, "w:max-msg-len-decides");
+    kani::cover!(k < S::MIN, "w:min-size-decides");
+}
+
+/// The whole sending path with a real emplacer: alloc -> new_in_place / default_in_place -> send.
+pub fn send_emplaced<const CAP: usize>() {
+    use flatty::{flat_vec, FlatVec};
+    let data0: [u8; CAP] = kani::any();
+    let pipe = Sink::<CAP> { data: [0; CAP], len: 0, calls: 0, faults: false, failed: false, last_after_fail: false, flushed: 0, flush_calls: 0 };
+    let mut tx = Sender::<FlatVec<u8, u8>, _>::new(flatty_io::IoBuffer::new(pipe, CAP, 1));
+    {
+        let b = tx.verif_buffer_mut();
+        let d = b.verif_data_mut();
+        let mut i = 0;
+        while i < CAP {
+            d[i] = data0[i];
+            i += 1;
+        }
+    }
+    let m: usize = kani::any();
+    kani::assume(m <= 2);
+    let it: [u8; 2] = kani::any();
+    let dflt: bool = kani::any();
+    let g = match tx.alloc() {
+        Ok(g) => g,
+        Err(e) => {
+            core::mem::forget(e);
+            return;
+        }
+    };
+    let g = if dflt {
+        g.default_in_place()
+    } else {
+        match m {
+            0 => g.new_in_place(flat_vec![]),
+            1 => g.new_in_place(flat_vec![it[0]]),
+            _ => g.new_in_place(flat_vec![it[0], it[1]]),
+        }
+    };
+    let g = match g {
+        Ok(g) => g,
+        Err(_) => {
+            assert!(false, "the message fits the buffer");
+            return;
+        }
+    };
+    let sent = match g.send() {
+        Ok(()) => true,
+        Err(e) => {
+            core::mem::forget(e);
+            false
+        }
+    };
+    assert!(sent, "send over a healthy pipe succeeds");
+    let p = tx.verif_buffer_mut().verif_pipe();
+    let mm = if dflt { 0 } else { m };
+    assert!(p.len == 1 + mm, "exactly the message's size() bytes were sent");
+    assert!(p.data[0] == mm as u8, "length byte");
+    assert!(mm < 1 || p.data[1] == it[0], "first item");
+    assert!(mm < 2 || p.data[2] == it[1], "second item");
+    kani::cover!(sent && mm == 2 && p.calls >= 2, "w:two-items-in-two-writes");
+}
+
 macro_rules! io {
     ($shape:ident, $m:ident, $cap:literal, $r:literal, $t:literal, $unw:literal) => {
         #[allow(non_snake_case)]
@@ -284,6 +391,31 @@ macro_rules! io {
             }
         }
     };
+}
+
+pub mod ctors {
+    #[kani::proof]
+    #[kani::unwind(4)]
+    fn U_S1() {
+        super::ctor::<crate::shapes::U_S1>()
+    }
+    #[kani::proof]
+    #[kani::unwind(4)]
+    fn V_U8L32() {
+        super::ctor::<crate::shapes::V_U8L32>()
+    }
+    #[kani::proof]
+    #[kani::unwind(4)]
+    fn V_U8() {
+        super::ctor::<crate::shapes::V_U8>()
+    }
+}
+pub mod emplaced {
+    #[kani::proof]
+    #[kani::unwind(8)]
+    fn send_emplaced() {
+        super::send_emplaced::<5>()
+    }
 }
 
 // module, message shape, buffer capacity, further stream bytes, capacity + further, unwind
